@@ -692,7 +692,7 @@ def load_corpus():
 
 def part_defer(ctx, res, r, thorough):
     rl = real()
-    cases = load_corpus() + defer_corpus() + [gen_scenario(r) for _ in range(3000 if thorough else 400)]
+    cases = load_corpus() + defer_corpus() + [gen_scenario(r) for _ in range(8000 if thorough else 400)]
     lines, impl = [], []
     for sc, now_us in cases:
         if HANGS['n'] >= MAX_HANGS:
@@ -769,7 +769,7 @@ def part_uptime(ctx, res, r, thorough):
     cases.append((mk_spec('dom', 15, time=(3, 0, 0)), False, ['T1', 'T2'], us(_dt.datetime(2026, 1, 10, tzinfo=_dt.UTC))))
     cases.append((mk_spec('dom', 31, time=(0, 0, 0)), True, [], us(_dt.datetime(2024, 1, 31, 12, tzinfo=_dt.UTC))))
     cases.append((mk_spec('dom', 30, time=(3, 0, 0)), False, ['T1'], us(_dt.datetime(2026, 1, 30, 2, tzinfo=_dt.UTC))))
-    for _ in range(300 if thorough else 40):
+    for _ in range(1000 if thorough else 40):
         kind = r.choice(['dow', 'dom'])
         spec = mk_spec(kind, r.randrange(7) if kind == 'dow' else r.choice([1, 15, 29, 30, 31, r.randrange(1, 32)]),
                        time=r.choice(tods))
@@ -885,6 +885,13 @@ def run(ctx, res):
 
 
 def replay(rep, res):
+    _replay(rep, res)
+    # only the recorded failure counts (an up-time replay also shows the known non-recurrence)
+    if rep.get('sig'):
+        res.hits = [h for h in res.hits if h['sig'] == rep['sig']]
+
+
+def _replay(rep, res):
     rl = real()
     inp = rep['input']
     if inp['kind'] == 'delay':
